@@ -553,11 +553,8 @@ var oracleC11 = oracle{
 			}
 			ts := twin.Steps[len(twin.Steps)-1]
 			c.n++
-			tieOK := false
-			if a, b := c.w.Tree.Get(hdr.RH(ts.PostTip)), c.w.Tree.Get(hdr.RH(st.PostTip)); a != nil && b != nil && a.Work.Cmp(b.Work) == 0 {
-				tieOK = true // equal-work tips: which one is reported is not fixed by the statement
-			}
-			if ts.Class != st.Class || (ts.PostTip != st.PostTip && !tieOK) {
+			// (equal-work tips are not exempt: which of them is reported must not depend on the restart)
+			if ts.Class != st.Class || ts.PostTip != st.PostTip {
 				// exempt submissions attaching deeper than the fork-depth limit
 				u := hdr.Get(st.Op.L)
 				parent := c.w.Tree.Get(hdr.RH(u.Header.PrevBlock))
@@ -634,89 +631,142 @@ var oracleC12 = oracle{
 			for _, m := range st.Mutated[:k] {
 				img.Apply(m)
 			}
-			crash := fmt.Sprintf("crash after %d of %d storage calls of %s", k, len(st.Mutated), st.Op.K)
-			cw := &hdr.World{Cfg: w.Cfg, Ctx: w.Ctx, Store: img}
-			repo := cw.NewRepo()
 			c.count("crash_points", 1)
 			if k > 0 && k < len(st.Mutated) {
 				if _, dup := crashImages.LoadOrStore(img.Digest(), true); !dup {
 					c.count("distinct_mid_sequence_images", 1)
 				}
 			}
-			err, p := hdr.Safe(func() error { return repo.Load(w.Ctx) })
-			c.n++
-			where := "mid"
-			if k == 0 {
-				where = "before-first"
-			} else if k == len(st.Mutated) {
-				where = "after-last"
-			}
-			if p != "" {
-				c.fail("crash-load-panic", st.Op.K+"|"+where+"|"+normalize(p), crash+": Load panicked: "+p)
-				return
-			}
-			if err != nil {
-				c.fail("crash-load-error", st.Op.K+"|"+where+"|"+normalize(err.Error()), crash+": Load failed: "+err.Error())
-				return
-			}
-			// soundness of the loaded chain
-			var bad string
-			var work = w.Tree.Get(hdr.RH(repo.LastHash()))
-			_, p = hdr.Safe(func() error {
-				tip := repo.Height()
-				if work == nil {
-					bad = "tip is not a previously accepted header"
+			for variant := 0; variant < 2; variant++ {
+				// the restart after the crash keeps the default depth in memory, or (second variant) as
+				// little as the production relation allows (see shortRestartDepth): everything below
+				// must then come from the header files of the image
+				crash := fmt.Sprintf("crash after %d of %d storage calls of %s", k, len(st.Mutated), st.Op.K)
+				cw := &hdr.World{Cfg: w.Cfg, Ctx: w.Ctx, Store: img.Clone()}
+				repo := cw.NewRepo()
+				var err error
+				var p string
+				if variant == 0 {
+					err, p = hdr.Safe(func() error { return repo.Load(w.Ctx) })
+				} else {
+					d := shortRestartDepth(w)
+					crash += fmt.Sprintf(" (restart retaining %d headers in memory)", d)
+					err, p = hdr.Safe(func() error { return repo.VerifLoad(w.Ctx, d) })
+				}
+				c.n++
+				where := "mid"
+				if k == 0 {
+					where = "before-first"
+				} else if k == len(st.Mutated) {
+					where = "after-last"
+				}
+				if p != "" {
+					c.fail("crash-load-panic", st.Op.K+"|"+where+"|"+normalize(p), crash+": Load panicked: "+p)
+					return
+				}
+				if err != nil {
+					c.fail("crash-load-error", st.Op.K+"|"+where+"|"+normalize(err.Error()), crash+": Load failed: "+err.Error())
+					return
+				}
+				// soundness of the loaded chain
+				var bad string
+				var work = w.Tree.Get(hdr.RH(repo.LastHash()))
+				_, p = hdr.Safe(func() error {
+					tip := repo.Height()
+					if work == nil {
+						bad = "tip is not a previously accepted header"
+						return nil
+					}
+					if work.Height != tip {
+						bad = fmt.Sprintf("tip height %d, true height %d", tip, work.Height)
+						return nil
+					}
+					var prev *bitcoin.Hash32
+					for _, h := range heightsToCheck(w, tip) {
+						hash, err := repo.Hash(w.Ctx, h)
+						var header *wire.BlockHeader
+						if err == nil {
+							header, err = repo.Header(w.Ctx, h)
+						}
+						if err != nil || hash == nil || header == nil {
+							bad = fmt.Sprintf("height %d not retrievable: %v", h, err)
+							return nil
+						}
+						if a := work.AncestorAt(h); a == nil || a.Hash != hdr.RH(*hash) || *header.BlockHash() != *hash {
+							bad = fmt.Sprintf("height %d is not the tip's ancestor", h)
+							return nil
+						}
+						if prev != nil && h > 0 && header.PrevBlock != *prev && w.Cfg.Base == 0 {
+							bad = fmt.Sprintf("height %d does not link to height %d", h, h-1)
+							return nil
+						}
+						prev = hash
+					}
 					return nil
+				})
+				if p != "" {
+					c.fail("crash-read-panic", st.Op.K+"|"+where+"|"+normalize(p), crash+": reading the loaded chain panicked: "+p)
+					return
 				}
-				if work.Height != tip {
-					bad = fmt.Sprintf("tip height %d, true height %d", tip, work.Height)
-					return nil
+				if bad != "" {
+					c.fail("crash-unsound-chain", st.Op.K+"|"+where, crash+": "+bad)
+					return
 				}
-				var prev *bitcoin.Hash32
-				for _, h := range heightsToCheck(w, tip) {
-					hash, err := repo.Hash(w.Ctx, h)
-					var header *wire.BlockHeader
-					if err == nil {
-						header, err = repo.Header(w.Ctx, h)
-					}
-					if err != nil || hash == nil || header == nil {
-						bad = fmt.Sprintf("height %d not retrievable: %v", h, err)
-						return nil
-					}
-					if a := work.AncestorAt(h); a == nil || a.Hash != hdr.RH(*hash) || *header.BlockHash() != *hash {
-						bad = fmt.Sprintf("height %d is not the tip's ancestor", h)
-						return nil
-					}
-					if prev != nil && h > 0 && header.PrevBlock != *prev && w.Cfg.Base == 0 {
-						bad = fmt.Sprintf("height %d does not link to height %d", h, h-1)
-						return nil
-					}
-					prev = hash
+				sw, _ := c.pre["saved"].(*big.Int)
+				if k == len(st.Mutated) && (st.Op.K == "save" || st.Op.K == "reload" || st.Op.K == "reloadd") && st.Err == "" && st.Panic == "" {
+					// every storage call of this Save was made: it IS the last completed Save
+					sw = w.SavedWork
 				}
-				return nil
-			})
-			if p != "" {
-				c.fail("crash-read-panic", st.Op.K+"|"+where+"|"+normalize(p), crash+": reading the loaded chain panicked: "+p)
-				return
+				if sw != nil && work.Work.Cmp(sw) < 0 {
+					c.fail("crash-lost-saved-work", st.Op.K+"|"+where, crash+fmt.Sprintf(": loaded tip %s has less work than the tip at the last completed Save", work.Label))
+					return
+				}
+				// life goes on after the restart: the recovered repository extends its chain by three
+				// headers, saves, and is restarted once more with a short retained depth; what that
+				// restart reports must again be the linked chain of accepted headers
+				if bad := continueAfterRecovery(cw, repo, work); bad != "" {
+					c.fail("crash-recovery-not-a-sound-start", st.Op.K+"|"+where+"|"+normalize(bad), crash+"; then 3 more headers, Save, restart: "+bad)
+					return
+				}
+				c.count("recoveries_continued", 1)
 			}
-			if bad != "" {
-				c.fail("crash-unsound-chain", st.Op.K+"|"+where, crash+": "+bad)
-				return
-			}
-			if sw, _ := c.pre["saved"].(*big.Int); sw != nil && work.Work.Cmp(sw) < 0 {
-				c.fail("crash-lost-saved-work", st.Op.K+"|"+where, crash+fmt.Sprintf(": loaded tip %s has less work than the tip at the last completed Save", work.Label))
-				return
-			}
-			// life goes on after the restart: the recovered repository extends its chain by three
-			// headers, saves, and is restarted once more with a short retained depth; what that
-			// restart reports must again be the linked chain of accepted headers
-			if bad := continueAfterRecovery(cw, repo, work); bad != "" {
-				c.fail("crash-recovery-not-a-sound-start", st.Op.K+"|"+where+"|"+normalize(bad), crash+"; then 3 more headers, Save, restart: "+bad)
-				return
-			}
-			c.count("recoveries_continued", 1)
 		}
 	},
+}
+
+// shortRestartDepth is the smallest retained depth that keeps the production relation "no
+// reorganisation reaches below what a restart keeps in memory" (there: 10000 headers against fork
+// depths of at most MaxBranchDepth) for this history: everything above the lowest fork point of the
+// accepted tree stays in memory, and at least 2 headers.
+func shortRestartDepth(w *hdr.World) int {
+	children := map[*ref.Node]int{}
+	top := 0
+	baseTip := w.Tree.SharedTip
+	for _, n := range w.Tree.Sorted() {
+		if n.Height > top {
+			top = n.Height
+		}
+		if n.Parent != nil {
+			children[n.Parent]++
+		}
+	}
+	if baseTip != nil && baseTip.Height > top {
+		top = baseTip.Height
+	}
+	lowest := top
+	for p, k := range children {
+		if _, shared := w.Tree.Shared[p.Hash]; shared && baseTip != nil && p.Height < baseTip.Height {
+			k++ // its child on the base chain
+		}
+		if k >= 2 && p.Height < lowest {
+			lowest = p.Height
+		}
+	}
+	d := top - lowest + 1
+	if d < 2 {
+		d = 2
+	}
+	return d
 }
 
 // continueAfterRecovery runs the continuation described in oracleC12 on a repository loaded from a
